@@ -30,6 +30,7 @@ type GenOpts struct {
 	NoEdits    bool // C08-style: only renames/dups/localized edits
 	TinyBias   bool // favour sizes 0..16 (C07)
 	HighEntropyOnly bool // every content is a high-entropy stream (C08)
+	MidBias    bool // favour files of several blocks and edited files (series with many messages)
 }
 
 var dirPool = []string{"", "", "a", "a/b", "c", "a/b/d", "e"}
@@ -60,6 +61,9 @@ func genSize(rt *rapid.T, o GenOpts, label string) int {
 		maxMid = 300 * KiB
 	}
 	c := rapid.IntRange(0, 19).Draw(rt, label+".sizeclass")
+	if o.MidBias && c < 12 {
+		return rapid.IntRange(BlockSize, maxMid).Draw(rt, label+".midbias")
+	}
 	if o.TinyBias && c < 10 {
 		return rapid.IntRange(0, 16).Draw(rt, label+".tiny")
 	}
@@ -302,6 +306,9 @@ func GenPair(rt *rapid.T, o GenOpts) *Pair {
 		e := old[op]
 		label := "f"
 		act := rapid.IntRange(0, 15).Draw(rt, label+".op")
+		if o.MidBias && act < 3 && rapid.Bool().Draw(rt, label+".forceedit") {
+			act = 3
+		}
 		if o.NoEdits {
 			act = rapid.SampledFrom([]int{0, 0, 1, 1, 4, 5, 6, 12}).Draw(rt, label+".op8")
 		}
@@ -615,3 +622,44 @@ func (p *Pair) Sample() map[string]interface{} {
 func (p *Pair) Nontrivial() bool {
 	return len(p.New.Files()) > 0 && len(p.Old) > 0
 }
+
+// InPlaceShapes reports which shapes of the two known in-place commit findings the pair contains:
+//
+//	"C02/dir-to-file-commit": a path is a directory with children in old and a file/symlink in new
+//	"C02/kindchange-destroys-transposition-source": a path P is a regular file in old and a
+//	    directory or symlink in new while P's unchanged content is reused whole at another new path
+//
+// involved lists the paths whose mention in an error or diff attributes a failure to the shape.
+func (p *Pair) InPlaceShapes() (classes map[string][]string) {
+	classes = map[string][]string{}
+	for q, e := range p.New {
+		oe, ok := p.Old[q]
+		if !ok {
+			continue
+		}
+		if oe.Kind == KDir && e.Kind != KDir {
+			hasChild := false
+			for r := range p.Old {
+				if Under(r, q) {
+					hasChild = true
+				}
+			}
+			if hasChild {
+				classes["C02/dir-to-file-commit"] = append(classes["C02/dir-to-file-commit"], q)
+			}
+		}
+		if oe.Kind == KFile && e.Kind != KFile {
+			for r, ne := range p.New {
+				// decided by content, not by the edit script: shrinking makes unrelated files equal
+				if ne.Kind == KFile && r != q && len(oe.Data) > 0 && string(ne.Data) == string(oe.Data) {
+					classes["C02/kindchange-destroys-transposition-source"] = append(classes["C02/kindchange-destroys-transposition-source"], q, r)
+				}
+			}
+		}
+	}
+	return
+}
+
+// HasKnownInPlaceShape is used by checks of other properties to keep C02's known findings out of
+// their verdicts.
+func (p *Pair) HasKnownInPlaceShape() bool { return len(p.InPlaceShapes()) > 0 }
